@@ -391,7 +391,12 @@ func (t *wScreen) onKeyEvent(this js.Value, args []js.Value) interface{} {
 	}
 
 	// finally try normal, printable chars
-	r, _ := utf8.DecodeRuneInString(key)
+	r, n := utf8.DecodeRuneInString(key)
+	if n < len(key) && r < utf8.RuneSelf {
+		// the name of a key we have no equivalent for ("CapsLock", "Dead",
+		// ...), not a character: its first letter was not typed
+		return nil
+	}
 	t.postEvent(NewEventKey(KeyRune, r, mod))
 	return nil
 }
@@ -564,6 +569,8 @@ var WebKeyNames = map[string]Key{
 	"Center":     KeyCenter,
 	"PgDn":       KeyPgDn,
 	"PgUp":       KeyPgUp,
+	"PageDown":   KeyPgDn, // what KeyboardEvent.key actually reports
+	"PageUp":     KeyPgUp,
 	"Clear":      KeyClear,
 	"Exit":       KeyExit,
 	"Cancel":     KeyCancel,
